@@ -16,7 +16,13 @@ type callSite struct {
 	Instr  ssa.CallInstruction
 }
 
+type implKey struct {
+	m *types.Func
+	t string
+}
+
 type callIndex struct {
+	impl2   map[implKey][]*ssa.Function
 	impl    map[*types.Func][]*ssa.Function
 	callees map[ssa.CallInstruction][]*ssa.Function
 	callers map[*ssa.Function][]callSite
@@ -28,7 +34,7 @@ var cidx = map[*Prog]*callIndex{}
 func (p *Prog) ci() *callIndex {
 	c := cidx[p]
 	if c == nil {
-		c = &callIndex{impl: map[*types.Func][]*ssa.Function{}, callees: map[ssa.CallInstruction][]*ssa.Function{}, callers: map[*ssa.Function][]callSite{}}
+		c = &callIndex{impl2: map[implKey][]*ssa.Function{}, impl: map[*types.Func][]*ssa.Function{}, callees: map[ssa.CallInstruction][]*ssa.Function{}, callers: map[*ssa.Function][]callSite{}}
 		cidx[p] = c
 	}
 	return c
@@ -73,7 +79,8 @@ func (p *Prog) ImplementersOf(iface *types.Interface) []types.Type {
 // method m on a value of static interface type recvT may dispatch to.
 func (p *Prog) Implementations(recvT types.Type, m *types.Func) []*ssa.Function {
 	c := p.ci()
-	if v, ok := c.impl[m]; ok {
+	ck := implKey{m, recvT.String()}
+	if v, ok := c.impl2[ck]; ok {
 		return v
 	}
 	var out []*ssa.Function
@@ -102,7 +109,7 @@ func (p *Prog) Implementations(recvT types.Type, m *types.Func) []*ssa.Function 
 			}
 		}
 	}
-	c.impl[m] = out
+	c.impl2[ck] = out
 	return out
 }
 
